@@ -238,6 +238,20 @@ template<class K> struct set : __flat<K,__scap<K>::v> {
 };
 template<class K> bool operator<(const set<K>&a,const set<K>&b){ bool lt=false,dec=false; for(int i=0;i<set<K>::SCAP;i++) if(!dec && i<a.n && i<b.n){ if(a.u.d[i]<b.u.d[i]){ lt=true; dec=true; } else if(b.u.d[i]<a.u.d[i]){ dec=true; } } return dec ? lt : (a.n<b.n); }
 
+// tuple / tie (lexicographic comparison, as used for ordering keys)
+template<class... T> struct tuple;
+template<> struct tuple<> { };
+template<class H,class... R> struct tuple<H,R...> { H head; tuple<R...> tail; tuple(H h, R... r):head(h),tail(r...){} };
+template<class... T> tuple<T&...> tie(T&... t){ return tuple<T&...>(t...); }
+template<class... T> tuple<T...> make_tuple(T... t){ return tuple<T...>(t...); }
+inline bool operator<(const tuple<>&,const tuple<>&){ return false; } inline bool operator==(const tuple<>&,const tuple<>&){ return true; }
+template<class H,class... R,class H2,class... R2> bool operator<(const tuple<H,R...>&a,const tuple<H2,R2...>&b){ if(a.head<b.head) return true; if(b.head<a.head) return false; return a.tail<b.tail; }
+template<class H,class... R,class H2,class... R2> bool operator==(const tuple<H,R...>&a,const tuple<H2,R2...>&b){ return a.head==b.head && a.tail==b.tail; }
+template<class... A,class... B> bool operator!=(const tuple<A...>&a,const tuple<B...>&b){ return !(a==b); }
+template<class... A,class... B> bool operator>(const tuple<A...>&a,const tuple<B...>&b){ return b<a; }
+template<int I,class H,class... R> struct __tget { static auto& g(tuple<H,R...>&t){ return __tget<I-1,R...>::g(t.tail); } };
+template<class H,class... R> struct __tget<0,H,R...> { static H& g(tuple<H,R...>&t){ return t.head; } };
+template<int I,class... T> auto& get(tuple<T...>&t){ return __tget<I,T...>::g(t); }
 struct mutex { void lock(){} void unlock(){} bool try_lock(){ return true; } };
 template<class M> struct lock_guard { explicit lock_guard(M&){} };
 template<class M> struct unique_lock { explicit unique_lock(M&){} void lock(){} void unlock(){} };
